@@ -299,7 +299,8 @@ theorem partsOf_mapParts {β} (d : α → β) (X : Sub) (slabs : List (Slab α))
 
 theorem rowWF_mapParts {β} (d : α → β) (X : Sub) (s : Slab α) (r : Row) :
     rowWF X ((s.mapParts d).part X) ((s.mapParts d).cleanPart X) r = rowWF X (s.part X) (s.cleanPart X) r := by
-  cases X <;> simp [rowWF, Slab.mapParts, Slab.part, Slab.cleanPart]
+  rcases r with ⟨h, _ | c⟩ <;> cases X <;>
+    simp only [rowWF, Slab.mapParts, Slab.part, Slab.cleanPart, List.length_map] <;> congr
 
 theorem wf_mapParts {β} (d : α → β) (o : Opts) (slabs : List (Slab α)) :
     wf o (slabs.map (Slab.mapParts d)) = wf o slabs := by
@@ -332,14 +333,14 @@ theorem decode_commutes {β} (d : α → β) (o : Opts) (slabs : List (Slab α))
   cases h2'
   refine ⟨_, h4, ?_⟩
   rw [h4']
-  congr 1
-  simp only [specRes, Result.mapSub, allParts, List.map_map]
-  congr 1
-  rw [List.map_flatMap, ← List.map_map, ← List.map_flatMap]
-  congr 1
-  apply flatMap_congr'
-  intro X _
-  exact partsOf_mapParts d X slabs kept
+  have hall : allParts o (slabs.map (Slab.mapParts d)) kept = (allParts o slabs kept).map d := by
+    unfold allParts
+    rw [List.map_flatMap]
+    apply flatMap_congr'
+    intro X _
+    exact partsOf_mapParts d X slabs kept
+  simp only [specRes, Result.mapSub, hall, List.map_map]
+  congr
 
 /-! ### light cone, faults -/
 
@@ -368,7 +369,7 @@ theorem zipper_inbounds (o : Opts) (slabs : List (Slab α)) (h : wf o slabs = tr
     load o slabs ≠ .error .oob ∧ load o slabs ≠ .error .badLength := by
   obtain ⟨_, kept, _, _, _, h4⟩ := load_eq o slabs h
   rw [h4]
-  exact ⟨fun hh => by cases hh, fun hh => by cases hh⟩
+  exact ⟨fun hh => (by cases hh), fun hh => (by cases hh)⟩
 
 /-! ### non-vacuity: a concrete catalog — two superslabs, an L0 gap before every range, a zero-particle halo,
 a cleaned-away halo with non-zero raw counts, merged ranges, a mask dropping a row -/
@@ -392,8 +393,10 @@ example : (load exOpts exSlabs).toOption.map (·.sub) =
 example : (load exOpts exSlabs).toOption.map (·.idx) =
     some [(.A, [0, 3, 4], [3, 1, 1]), (.B, [5, 6, 7], [1, 1, 1])] := by decide
 -- a range that runs past the end of its particle file is rejected by `wf`
-example : wf exOpts [{ halos := [⟨5, 3, 0, 0, 1⟩], clean := [⟨0, 0, 0, 0, 4⟩], partA := [1, 2, 3, 4, 5, 6],
-    partB := [], cleanA := [], cleanB := [] }] = false := by decide
+def exBad : List (Slab Nat) :=
+  [ { halos := [⟨5, 3, 0, 0, 1⟩], clean := [⟨0, 0, 0, 0, 4⟩], partA := [1, 2, 3, 4, 5, 6],
+      partB := [], cleanA := [], cleanB := [] } ]
+example : wf { exOpts with masks := none } exBad = false := by decide
 example : ∃ res, loadLc [(0, 2), (3, 1)] [5, 6, 7, 8] (some [true, false]) = .ok res ∧ res.rows = [(0, 2)] :=
   ⟨_, rfl, rfl⟩
 
